@@ -22,7 +22,7 @@ HOSTILE_LHS = ['class', 'def', 'None', 'True', 'lambda', 'import', 'is', 'in', '
                '.', '..', 'a.', '.a', 'a..b', 'a.0', 'a.b.0', '0.a', 'a.b.c.d.e', 'a.-1', 'a.b.', 'b.None',
                "'", '"', "'a", "a'", '"a', "''", '""', "'''", "'a'b'", "'a\"", 'a\'b', "b'x'", "r'x'", "f'x'", "u'x'", "'\\'",
                '\\', '\\n', 'a\\', '#', 'a#b', '$', 'a;b', 'a,b', ',', 'a=b', '`a`', 'a?b', 'é', 'λ.b', 'a.é', '中',
-               '[' * 60 + ']' * 60, '[' * 300, '-' * 50 + '1', 'not.a', 'and.b', 'a.and', 'rule', 'role', 'http', '__class__', 'a.__class__', 'roles', 'roles.0']
+               '[' * 60 + ']' * 60, '[' * 300, '0x' + 'f' * 3600, '0b' + '1' * 15000, '9' * 5000, '0o' + '7' * 5000, '-' * 50 + '1', 'not.a', 'and.b', 'a.and', 'rule', 'role', 'http', '__class__', 'a.__class__', 'roles', 'roles.0']
 HOSTILE_RHS = ['v', '1', 'None', 'True', "'", '"', '[', '{', '}', ']', '\\', 'class', '1+', 'a.0', ':', '::', 'a:b', '#', 'é']
 KINDS_OK = ['role', 'rule', 'http', 'https']   # kinds with their own handler (remote checks are C16's subject); everything else is a generic check
 
@@ -106,8 +106,10 @@ def run(ctx):
             if rng.random() < 0.03:
                 credskind, creds_obj = 'bad', rng.choice([['a'], 'creds', 7, ('x',)])
             call['credskind'] = credskind
+            if call['by'] == 'name' and rng.random() < 0.2:
+                call.update({'authorize': 1, 'doraise': 1, 'custom': 1, 'xargs': [1, 'two'], 'xkw': {'k': 3}})
             cases.append(ec.enforce_case(rules, call, target, creds, dflt=rng.choice([('opt', None), ('name', names[-1])]),
-                                         want='c14', creds_obj=creds_obj))
+                                         want='c14', creds_obj=creds_obj, registered=[(n, []) for n in names] if call.get('authorize') else ()))
         for n, t in rules:
             for sx in ev.tree_strings(t, []):
                 lhs_seen.add(sx)
